@@ -51,10 +51,10 @@ def displacePPN (ddt dd gammaPpn : α) : α × α := (ddt, dd * (1.0 + gammaPpn)
 /-- `lambda_tot = max(lambda_mst * (1 - kappa_ext), 0.0001)` -/
 def lambdaTot (lam kappa : α) : α := maxF (lam * (1.0 - kappa)) 0.0001
 
-/-- `_displace_lambda_mst` (including the literal `dd * lambda_mst / lambda_mst`) -/
+/-- `_displace_lambda_mst` (`dd_ = dd`: the ratio `sigma_v2_scaling / lambda_mst` is identically one and is no longer evaluated, repo fix for F15) -/
 def displaceMST (ddt dd lam kappa mag : α) : α × α × α :=
   let lt := lambdaTot lam kappa
-  (ddt * lt, dd * lam / lam, mag + 5.0 * Trans.log10 lt)
+  (ddt * lt, dd, mag + 5.0 * Trans.log10 lt)
 
 /-- `displace_prediction` -/
 def displace (ddt dd gammaPpn lam kappa mag : α) : α × α × α :=
